@@ -202,3 +202,104 @@ def explore_base(run, binp, n):
     run.oblige("corr:L1 Model.ParseSpecial.parseWithBase = ada::parse<ada::url>(input, &base) (every field, failures)",
                not bad, "; ".join(f"input {unhx(l.split()[1])!r} base {unhx(l.split()[2])!r}{' ' + l.split()[3] if len(l.split()) > 3 else ''}: implementation [{r[:300]}], model [{m[:300]}]"
                                   for l, r, m in bad[:3]))
+
+
+def explore_agg(run, binp, n):
+    """parse_url_impl<ada::url_aggregator>(input, nullptr): buffer and offsets against Model.ParseAgg (driver `parse.agg`)."""
+    rng = run.rng
+    inputs = sorted({gen_input(rng) for _ in range(n)})
+    rng.shuffle(inputs)
+    lines = [f"parseagg {hx(i)}" + pick_limit(rng, i) for i in inputs if i]
+    real, crash = lib.run_lines(binp, lines, timeout=900)
+    if crash:
+        idx = min(crash.get("answered", 0), len(lines) - 1)
+        run.violation("crash:" + lines[idx], "ada::parse<ada::url_aggregator> crashed/aborted", lines=[lines[idx]], detail=crash)
+        return
+    q = ["parse.agg " + " ".join(l.split()[1:]) for l in lines]
+    model, dcrash = lib.run_lines(lib.driver_path(), q, timeout=900)
+    if dcrash:
+        run.oblige("corr:L1 parse_url_impl<url_aggregator> (driver)", False, str(dcrash)[:300])
+        return
+    idna_via = wpt.idna_via_harness(binp)
+    hints = {}
+    for _ in range(4):
+        need = sorted({unhx(a.split()[1]) for a in model if a.startswith("need-idna ")} - set(hints))
+        if not need:
+            break
+        for d, o in zip(need, idna_via(need)):
+            hints[d] = o
+        idx = [i for i, a in enumerate(model) if a.startswith("need-idna ")]
+        sub, dcrash = lib.run_lines(lib.driver_path(), [q[i] + " " + " ".join(f"{hx(d)}={'!' if hints[d] is None else hx(hints[d])}"
+                                                                                 for d in [unhx(model[i].split()[1])] if d in hints)
+                                                         for i in idx], timeout=900)
+        if dcrash:
+            run.oblige("corr:L1 parse_url_impl<url_aggregator> (driver)", False, str(dcrash)[:300])
+            return
+        for i, a in zip(idx, sub):
+            model[i] = a
+    bad, stat = [], {"invalid": 0, "ok": 0}
+    for l, r, m in zip(lines, real, model):
+        run.count()
+        run.nontriv(l)
+        want = r
+        stat["invalid" if want == "invalid" else "ok"] += 1
+        if want != m:
+            bad.append((l, want, m))
+    stat["with_limit"] = sum(1 for l in lines if " L=" in l)
+    run.extra["parse_agg_L1_inputs"] = len(lines)
+    run.extra["parse_agg_L1_outcomes"] = stat
+    run.oblige("corr:L1 Model.ParseAgg = ada::parse<ada::url_aggregator>(input) without a base (buffer, eight offsets, opaque flag; failures)",
+               not bad, "; ".join(f"input {unhx(l.split()[1])!r}: implementation [{r[:300]}], model [{m[:300]}]" for l, r, m in bad[:3]))
+
+
+def explore_agg_base(run, binp, n):
+    """parse_url_impl<ada::url_aggregator>(input, &base) against Model.ParseAgg.machineBA on the real base object's buffer and offsets
+    (routes through the file states are not modelled on the aggregator and are skipped)."""
+    rng = run.rng
+    pairs = sorted({gen_base_pair(rng) for _ in range(n)})
+    rng.shuffle(pairs)
+    lines = [f"parseaggbase {hx(i)} {hx(b)}" for i, b in pairs if i and b]
+    real, crash = lib.run_lines(binp, lines, timeout=900)
+    if crash:
+        idx = min(crash.get("answered", 0), len(lines) - 1)
+        run.violation("crash:" + lines[idx], "ada::parse<ada::url_aggregator> with a base crashed/aborted", lines=[lines[idx]], detail=crash)
+        return
+    keep = [(l, r.split()) for l, r in zip(lines, real) if r != "badbase"]
+    q = ["parse.aggbase " + l.split()[1] + " " + p[0] for l, p in keep]
+    model, dcrash = lib.run_lines(lib.driver_path(), q, timeout=900)
+    if dcrash:
+        run.oblige("corr:L1 parse_url_impl<url_aggregator> with a base (driver)", False, str(dcrash)[:300])
+        return
+    idna_via = wpt.idna_via_harness(binp)
+    hints = {}
+    for _ in range(4):
+        need = sorted({unhx(a.split()[1]) for a in model if a.startswith("need-idna ")} - set(hints))
+        if not need:
+            break
+        for d, o in zip(need, idna_via(need)):
+            hints[d] = o
+        idx = [i for i, a in enumerate(model) if a.startswith("need-idna ")]
+        sub, dcrash = lib.run_lines(lib.driver_path(), [q[i] + " " + " ".join(f"{hx(d)}={'!' if hints[d] is None else hx(hints[d])}"
+                                                                                 for d in [unhx(model[i].split()[1])] if d in hints)
+                                                         for i in idx], timeout=900)
+        if dcrash:
+            run.oblige("corr:L1 parse_url_impl<url_aggregator> with a base (driver)", False, str(dcrash)[:300])
+            return
+        for i, a in zip(idx, sub):
+            model[i] = a
+    bad, stat = [], {"bad_base": len(lines) - len(keep), "not_modelled_file_route": 0, "invalid": 0, "ok": 0}
+    for (l, p), m in zip(keep, model):
+        run.count()
+        if m == "other":
+            stat["not_modelled_file_route"] += 1
+            continue
+        run.nontriv(l)
+        want = p[1]
+        stat["invalid" if want == "invalid" else "ok"] += 1
+        if want != m:
+            bad.append((l, want, m))
+    run.extra["parse_agg_base_L1_pairs"] = len(keep)
+    run.extra["parse_agg_base_L1_outcomes"] = stat
+    run.oblige("corr:L1 Model.ParseAgg.machineBA = ada::parse<ada::url_aggregator>(input, &base) (buffer, offsets; failures)",
+               not bad, "; ".join(f"input {unhx(l.split()[1])!r} base {unhx(l.split()[2])!r}: implementation [{r[:300]}], model [{m[:300]}]"
+                                  for l, r, m in bad[:3]))
